@@ -315,7 +315,8 @@ pub struct WorkerOpts {
     pub evict_on_queue_full: Option<bool>,
     /// default deadline of `Worker::request` (2 s)
     pub request_deadline: Duration,
-    /// write the worker's log to this file (debugging); default: discarded
+    /// write the worker's log to this file (debugging); default: `$RIG_LOG_FILE`,
+    /// else discarded. Level: `log_level`, default `$RIG_LOG_LEVEL`, else "debug".
     pub log_file: Option<String>,
     pub log_level: String,
     /// last edit of the `ServerConfig` handed to the worker
@@ -340,8 +341,8 @@ impl Default for WorkerOpts {
             accept_queue_timeout: None,
             evict_on_queue_full: None,
             request_deadline: Duration::from_secs(2),
-            log_file: None,
-            log_level: "debug".into(),
+            log_file: std::env::var("RIG_LOG_FILE").ok(),
+            log_level: std::env::var("RIG_LOG_LEVEL").unwrap_or_else(|_| "debug".into()),
             tweak: None,
         }
     }
